@@ -178,7 +178,7 @@ fn main() {
             },
             quick_runs: 1_000_000,
             thorough_runs: 40_000_000,
-            rule: "each run picks one corpus flow whose top-level operators use only safe APIs (production-generated code; nondet! only in the trailing observation shims), draws knobs and input items (<= 12 items in total), and (plus 32 flows emitted per build by a seeded composer that chains safe operators from a table - map/filter/flat_map/filter_map/unique/enumerate/scan/limit/bounded-side join/filter_not_in/cross_singleton/partition, then optionally weaken_ordering/merge/self-join/cross_product and unordered stages, then a terminal stream/fold/reduce/count/max/first/last/threshold; oracle for those: schedule independence only) and executes it twice on the same inputs: canonical schedule (everything released before tick 0, eager network) and a seeded schedule (independent partition of every input into ticks incl. empty ticks; for multi-location flows which location ticks next and how many in-flight messages of each FIFO wire are delivered before a tick). Distinct = distinct hash of (entry, realised decision trace); non-trivial = at least one item flowed AND (the partition differs from all-at-once OR a message crossed the simulated network).",
+            rule: "each run picks one corpus flow whose top-level operators use only safe APIs (production-generated code; nondet! only in the trailing observation shims), draws knobs and input items (<= 12 items in total), and (plus 32 flows emitted per build by a seeded composer that chains safe operators from a table - map/filter/flat_map/filter_map/unique/enumerate/scan/limit/bounded-side join/filter_not_in/cross_singleton/partition, then optionally weaken_ordering/merge/self-join/cross_product and unordered stages, then a terminal stream/fold/reduce/count/max/first/last/threshold; oracle for those: schedule independence only) and executes it twice on the same inputs: canonical schedule (everything released before tick 0, eager network) and a seeded schedule (independent partition of every input into ticks incl. empty ticks; for multi-location flows which location ticks next and how many in-flight messages of each FIFO wire are delivered before a tick). Distinct = distinct hash of (entry, realised decision trace); non-trivial = at least one item flowed AND (the partition differs from all-at-once OR a message crossed the simulated network). PLUS the matrix composer (crate matrixdef, ~456 generated flows per build, seed E4_MATRIX_SEED): every operator family (43: map/filter/flat_map/filter_map/unique/enumerate/scan incl. a scan whose closure returns None and would return Some again/limit/sort/chain/cross_singleton/join/cross_product/nested-loop product/anti_join/filter_not_in/partition/merge, keyed fold/reduce/scan/first/value_counts/keys/unique/repeat_with_keys, fold/reduce/count/max/min/first/last/collect_vec/is_empty) x location kind and batch source (top level, top level tee'd, atomic region, tick batch, tee'd tick batch = push side, Tick::cycle value, cycle+defer_tick, defer_tick, across_ticks, bounded top-level collection) x input typing (TotalOrder/NoOrder x ExactlyOnce/AtLeastOnce through the safe casts) x optional pre-stage; covering set deterministic (every operator in the 5 main contexts + 2-3 rotating others; every weak typing in >= 2 contexts), 32 seeded extras; oracle = the operator's plain-Rust list semantics lifted to the context (top level / atomic / bounded top level entries: final outputs equal across schedules and equal to op(whole input); bounded top-level data emitted exactly once however many ticks run).",
             time_unit: "ticks",
             real: REAL,
             stubs: STUBS_NET,
@@ -202,7 +202,7 @@ fn main() {
             },
             quick_runs: 1_000_000,
             thorough_runs: 40_000_000,
-            rule: "each run picks one corpus flow with a totally ordered output (map/filter/flat_map_ordered/enumerate/scan/limit/unique/partition/bounded-side joins/TCP hops) or a keyed stream whose per-key order is made observable by an ordered per-key fold (per-key vec/scan/enumerate+limit/fold/reduce/first, cluster->process per member, process->cluster demux), draws input items (<= 12) and executes it under two independently seeded schedules: tick partition, network schedule and - for keyed inputs - two different cross-key interleavings of the same per-key subsequences; keyed flows run a third time with only one key's items. Distinct = distinct hash of (entry, realised decision trace); non-trivial = at least one item flowed AND the two runs differ in partition, interleaving or network schedule.",
+            rule: "each run picks one corpus flow with a totally ordered output (map/filter/flat_map_ordered/enumerate/scan/limit/unique/partition/bounded-side joins/TCP hops) or a keyed stream whose per-key order is made observable by an ordered per-key fold (per-key vec/scan/enumerate+limit/fold/reduce/first, cluster->process per member, process->cluster demux), draws input items (<= 12) and executes it under two independently seeded schedules: tick partition, network schedule and - for keyed inputs - two different cross-key interleavings of the same per-key subsequences; keyed flows run a third time with only one key's items. Distinct = distinct hash of (entry, realised decision trace); non-trivial = at least one item flowed AND the two runs differ in partition, interleaving or network schedule. PLUS the matrix composer (crate matrixdef, ~456 generated flows per build, seed E4_MATRIX_SEED): every operator family (43: map/filter/flat_map/filter_map/unique/enumerate/scan incl. a scan whose closure returns None and would return Some again/limit/sort/chain/cross_singleton/join/cross_product/nested-loop product/anti_join/filter_not_in/partition/merge, keyed fold/reduce/scan/first/value_counts/keys/unique/repeat_with_keys, fold/reduce/count/max/min/first/last/collect_vec/is_empty) x location kind and batch source (top level, top level tee'd, atomic region, tick batch, tee'd tick batch = push side, Tick::cycle value, cycle+defer_tick, defer_tick, across_ticks, bounded top-level collection) x input typing (TotalOrder/NoOrder x ExactlyOnce/AtLeastOnce through the safe casts) x optional pre-stage; covering set deterministic (every operator in the 5 main contexts + 2-3 rotating others; every weak typing in >= 2 contexts), 32 seeded extras; oracle = the operator's plain-Rust list semantics lifted to the context (entries with a totally ordered output or an observable per-key order, in every context; tick entries per tick), plus flows whose async operator really suspends inside a tick (simulated futures scripted by the simulator, tick driven through the async run_tick): chain with an async first/second input, async scan.",
             time_unit: "ticks",
             real: REAL,
             stubs: STUBS_NET,
@@ -211,7 +211,7 @@ fn main() {
                 "the per-key order of a keyed stream is observed through an ordered (non-commutative) per-key fold, which is what the type promises to be deterministic; entries() of a keyed stream is typed NoOrder and compared as a set",
                 "TCP.fail_stop(): one FIFO wire per (sender, receiver) pair, no loss/duplication, arbitrary delay and cross-pair interleaving",
             ],
-            required_probes: &["cross_key_interleaving", "solo_key_run", "net_delay", "empty_tick"],
+            required_probes: &["cross_key_interleaving", "solo_key_run", "net_delay", "empty_tick", "future_suspended_in_tick", "value_recurs_in_later_batch"],
         },
         Prop {
             id: "C30",
@@ -222,7 +222,7 @@ fn main() {
             },
             quick_runs: 3_000_000,
             thorough_runs: 200_000_000,
-            rule: "each run picks one corpus flow of the form input.batch(&tick, nondet!) -> <tick operators> -> all_ticks() (production-generated code), draws knobs (length <= 8, value/key domain, partition mode), input items per embedded input, and the partition of every input into ticks (all-at-once, singletons, random gaps, bursts, leading/trailing empty ticks; different inputs partitioned independently) plus 2-4 trailing empty ticks. Distinct = distinct hash of (entry, realised decision trace); non-trivial = at least one item flowed AND the partition differs from everything-in-tick-0.",
+            rule: "each run picks one corpus flow of the form input.batch(&tick, nondet!) -> <tick operators> -> all_ticks() (production-generated code), draws knobs (length <= 8, value/key domain, partition mode), input items per embedded input, and the partition of every input into ticks (all-at-once, singletons, random gaps, bursts, leading/trailing empty ticks; different inputs partitioned independently) plus 2-4 trailing empty ticks. Distinct = distinct hash of (entry, realised decision trace); non-trivial = at least one item flowed AND the partition differs from everything-in-tick-0. PLUS the matrix composer (crate matrixdef, ~456 generated flows per build, seed E4_MATRIX_SEED): every operator family (43: map/filter/flat_map/filter_map/unique/enumerate/scan incl. a scan whose closure returns None and would return Some again/limit/sort/chain/cross_singleton/join/cross_product/nested-loop product/anti_join/filter_not_in/partition/merge, keyed fold/reduce/scan/first/value_counts/keys/unique/repeat_with_keys, fold/reduce/count/max/min/first/last/collect_vec/is_empty) x location kind and batch source (top level, top level tee'd, atomic region, tick batch, tee'd tick batch = push side, Tick::cycle value, cycle+defer_tick, defer_tick, across_ticks, bounded top-level collection) x input typing (TotalOrder/NoOrder x ExactlyOnce/AtLeastOnce through the safe casts) x optional pre-stage; covering set deterministic (every operator in the 5 main contexts + 2-3 rotating others; every weak typing in >= 2 contexts), 32 seeded extras; oracle = the operator's plain-Rust list semantics lifted to the context (tick batch / tee'd batch / cycle / cycle+defer / defer / across_ticks entries: output of tick t == op(batch t - shift), across_ticks cumulative), plus flows with simulated futures that suspend inside a tick.",
             time_unit: "ticks",
             real: REAL,
             stubs: STUBS,
@@ -232,7 +232,7 @@ fn main() {
                 "only the embedded production back end is run (deploy/trybuild glue shares emit_core but is not executed)",
                 "where documentation leaves multiplicity/order open (anti_join on duplicate rows, join with several build matches) inputs are generated so that both readings agree",
             ],
-            required_probes: &["empty_tick", "two_nonempty_batches", "multi_item_batch_and_several_ticks"],
+            required_probes: &["empty_tick", "two_nonempty_batches", "multi_item_batch_and_several_ticks", "value_recurs_in_later_batch", "future_suspended_in_tick"],
         },
         Prop {
             id: "C32",
@@ -243,7 +243,7 @@ fn main() {
             },
             quick_runs: 2_000_000,
             thorough_runs: 150_000_000,
-            rule: "one corpus flow per library-internal assume_ordering_trusted / assume_retries_trusted call site (Stream::{max,min,first,last,count,is_empty,repeat_with_keys,weaken_ordering,make_totally_ordered,weaken_retries,make_exactly_once}, KeyedStream::{weaken_ordering,make_totally_ordered,weaken_retries,make_exactly_once,value_counts}, KeyedSingleton::{into_singleton x3 code paths, get_max_key}; top-level and in-tick variants), input typed as weakly as the public signature allows. Each run draws an input (<= 6 items per input), applies a seeded transformation admitted by that type (permutation for NoOrder; duplication for AtLeastOnce - anywhere if unordered, directly after the original if totally ordered; cross-key interleaving for keyed inputs with fixed per-key order) and a seeded tick partition. Distinct = distinct hash of (entry, realised decision trace); non-trivial = at least one item flowed AND (the input was actually permuted/duplicated/re-interleaved OR the partition is non-canonical).",
+            rule: "one corpus flow per library-internal assume_ordering_trusted / assume_retries_trusted call site (Stream::{max,min,first,last,count,is_empty,repeat_with_keys,weaken_ordering,make_totally_ordered,weaken_retries,make_exactly_once}, KeyedStream::{weaken_ordering,make_totally_ordered,weaken_retries,make_exactly_once,value_counts}, KeyedSingleton::{into_singleton x3 code paths, get_max_key}; top-level and in-tick variants), input typed as weakly as the public signature allows. Each run draws an input (<= 6 items per input), applies a seeded transformation admitted by that type (permutation for NoOrder; duplication for AtLeastOnce - anywhere if unordered, directly after the original if totally ordered; cross-key interleaving for keyed inputs with fixed per-key order) and a seeded tick partition. Distinct = distinct hash of (entry, realised decision trace); non-trivial = at least one item flowed AND (the input was actually permuted/duplicated/re-interleaved OR the partition is non-canonical). PLUS the matrix composer (crate matrixdef, ~456 generated flows per build, seed E4_MATRIX_SEED): every operator family (43: map/filter/flat_map/filter_map/unique/enumerate/scan incl. a scan whose closure returns None and would return Some again/limit/sort/chain/cross_singleton/join/cross_product/nested-loop product/anti_join/filter_not_in/partition/merge, keyed fold/reduce/scan/first/value_counts/keys/unique/repeat_with_keys, fold/reduce/count/max/min/first/last/collect_vec/is_empty) x location kind and batch source (top level, top level tee'd, atomic region, tick batch, tee'd tick batch = push side, Tick::cycle value, cycle+defer_tick, defer_tick, across_ticks, bounded top-level collection) x input typing (TotalOrder/NoOrder x ExactlyOnce/AtLeastOnce through the safe casts) x optional pre-stage; covering set deterministic (every operator in the 5 main contexts + 2-3 rotating others; every weak typing in >= 2 contexts), 32 seeded extras; oracle = the operator's plain-Rust list semantics lifted to the context (entries with a weakly typed input or an operator that consumes a weak type / is a trusted call site, in every context incl. atomic regions and bounded top-level collections; the input is transformed by what its typing admits, duplicates may land in later ticks).",
             time_unit: "ticks",
             real: REAL,
             stubs: STUBS,
@@ -253,7 +253,7 @@ fn main() {
                 "the embedded input is TotalOrder/ExactlyOnce; the weak type is obtained with the safe casts weaken_ordering / weaken_retries, which are themselves two of the call sites",
                 "hash-map iteration order inside the code under test is not controlled by this engine (E7 owns hash seeds); cross-key interleaving varies insertion order only",
             ],
-            required_probes: &["input_permuted", "input_duplicated", "cross_key_interleaving", "empty_tick"],
+            required_probes: &["input_permuted", "input_duplicated", "cross_key_interleaving", "empty_tick", "value_recurs_in_later_batch"],
         },
         Prop {
             id: "C33",
@@ -266,7 +266,7 @@ fn main() {
             },
             quick_runs: 1_500_000,
             thorough_runs: 100_000_000,
-            rule: "each run picks one corpus flow producing a collection whose type promises monotone growth (count() and other Monotonic singletons, value_counts() = MonotonicValue, keyed folds/reduces = keys only added, keyed first() = BoundedValue observed as a map, counts behind a TCP hop, per-member keyed state), observed by a per-tick snapshot shim; draws inputs (<= 12 items incl. duplicates and late keys) and a seeded tick partition / network schedule and checks the whole per-tick history. Distinct = distinct hash of (entry, realised decision trace); non-trivial = at least one item flowed AND the schedule is non-canonical AND the history holds at least two distinct snapshots.",
+            rule: "each run picks one corpus flow producing a collection whose type promises monotone growth (count() and other Monotonic singletons, value_counts() = MonotonicValue, keyed folds/reduces = keys only added, keyed first() = BoundedValue observed as a map, counts behind a TCP hop, per-member keyed state), observed by a per-tick snapshot shim; draws inputs (<= 12 items incl. duplicates and late keys) and a seeded tick partition / network schedule and checks the whole per-tick history. Distinct = distinct hash of (entry, realised decision trace); non-trivial = at least one item flowed AND the schedule is non-canonical AND the history holds at least two distinct snapshots. PLUS the type-driven table (matrixdef::c33, 94 flows): (producer, transformer) pairs - value_counts, keyed fold with/without monotone proof, keyed reduce, keyed first, fold_early_stop, keyed scan+first, count, fold with/without monotone proof x id/map/map_with_key (monotone and non-monotone closures)/filter/filter_map - at top level and inside an atomic region; the flow's generic observer returns B::bound_kind() of the observed collection at build time and the oracle applies exactly what that type claims (MonotonicKeys: keys stay; MonotonicValue: + values never decrease; BoundedValue: a key is never reported twice; Monotonic: value never decreases; Unbounded: nothing).",
             time_unit: "ticks",
             real: REAL,
             stubs: STUBS_NET,
@@ -275,7 +275,7 @@ fn main() {
                 "only library-provided annotations are checked (count, value_counts, keyed first, key set growth); user-supplied `monotone = manual_proof!` annotations are the user's claim, not the library's",
                 "the snapshot shim observes one value per tick; changes within a tick are not observable in production code",
             ],
-            required_probes: &["history_with_3_distinct_snapshots", "empty_tick", "net_delay"],
+            required_probes: &["history_with_3_distinct_snapshots", "empty_tick", "net_delay", "key_recurs_in_later_tick"],
         },
         Prop {
             id: "C31p",
